@@ -44,13 +44,11 @@ def cone_files():
 
 
 def prop_modules(prop):
-    """CR/Props/<id>.lean plus companions CR/Props/<id><Suffix>.lean (e.g. C15Real)"""
-    d = os.path.join(LEAN_DIR, "CR", "Props")
-    out = []
-    for f in sorted(os.listdir(d)) if os.path.isdir(d) else []:
-        if f.endswith(".lean") and re.match(re.escape(prop) + r"([A-Z][A-Za-z]*)?\.lean$", f):
-            out.append(f[:-5])
-    return out
+    """the property's theorem modules: CR/Props/<id>.lean plus companions <id><Suffix>.lean, restricted to
+    the modules listed in lean/READY (files still under construction are not part of any check)"""
+    ready = open(os.path.join(LEAN_DIR, "READY")).read().split()
+    return [m for m in ready if re.match(re.escape(prop) + r"([A-Z][A-Za-z]*)?$", m)
+            and os.path.exists(os.path.join(LEAN_DIR, "CR", "Props", m + ".lean"))]
 
 
 def theorem_names(prop):
